@@ -68,7 +68,7 @@ fn roundtrip(rng: &mut Rng, ctx: &mut Ctx) {
     let st = Status::with_details_and_metadata(code, message.clone(), details.clone().into(), build_meta(&meta));
     let mut hm = HeaderMap::new();
     // pre-existing unrelated header must survive
-    hm.insert("x-pre", HeaderValue::from_static("1"));
+    hm.insert("verif-pre", HeaderValue::from_static("1"));
     let via_http = rng.bool();
     if via_http {
         let resp: http::Response<()> = {
@@ -131,10 +131,10 @@ fn roundtrip(rng: &mut Rng, ctx: &mut Ctx) {
             }
         }
     }
-    if !via_http && hm.get("x-pre").is_none() {
+    if !via_http && hm.get("verif-pre").is_none() {
         ctx.violation("clobbered-header", "add_header removed an unrelated pre-existing header".into());
     }
-    hm.remove("x-pre");
+    hm.remove("verif-pre");
     // a peer may pad the binary values: re-encode details padded half of the time
     if rng.bool() && !details.is_empty() {
         hm.insert("grpc-status-details-bin", HeaderValue::from_str(&b64_encode(&details, true)).unwrap());
